@@ -1,16 +1,19 @@
 //! rnsim — deterministic simulator for r-nacos. See /verif/DESIGN.md.
 mod checks_l;
+mod checks_n;
 mod core;
 mod interpose;
 mod rig_c;
 mod rig_l;
+mod rig_n;
+mod wl;
 
 use crate::core::*;
 use serde_json::{json, Value};
 use std::io::Write;
 
 fn registry() -> Vec<&'static dyn Check> {
-    vec![&checks_l::C02, &checks_l::C03, &checks_l::C05, &checks_l::C04, &rig_c::C20]
+    vec![&checks_l::C02, &checks_l::C03, &checks_l::C05, &checks_l::C04, &rig_c::C20, &checks_n::C01]
 }
 
 fn find(id: &str) -> &'static dyn Check {
